@@ -7,6 +7,9 @@ import (
 	"os"
 	"path/filepath"
 	"strings"
+
+	"github.com/go-openapi/analysis"
+	"github.com/go-openapi/spec"
 )
 
 func init() {
@@ -359,5 +362,134 @@ func VerifC11RenderFilter() {
 		default:
 			vAssert(got, "an application file of the plan is silently not written")
 		}
+	}
+}
+
+func init() { vRegister("VerifC11SpecDirUntouched", VerifC11SpecDirUntouched) }
+
+// C11 (nothing of the user's is touched): loading and analysing the spec - with and without
+// --keep-spec-order, for a YAML and for a JSON spec - leaves the directory the spec lives in, with
+// the files next to it, exactly as it was. (--keep-spec-order works on an amended copy in a scratch
+// directory; whatever is cleaned up afterwards must be that copy.)
+func VerifC11SpecDirUntouched() {
+	keepOrder := vBool2("keepSpecOrder")
+	asJSON := vBool2("jsonSpec")
+	base := "swagger.yml"
+	if asJSON {
+		base = "swagger.json"
+	}
+	sw := vBaseSpec()
+	op := &spec.Operation{}
+	op.ID = "getIt"
+	op.Responses = vOKResponses()
+	vAddOp(sw, "GET", "/x", op)
+	// (JSON is YAML; symbolically the loader is a stub answering with sw)
+	specText := []byte(`{"swagger":"2.0","info":{"title":"t","version":"1"},"paths":{"/x":{"get":{"operationId":"getIt","responses":{"200":{"description":"ok"}}}}}}`)
+	notes, example := "notes of the user", "{\"name\":\"rex\"}"
+	var root string
+	read := func(p string) (string, bool) {
+		if vSymbolic() {
+			return vFSRead(p)
+		}
+		b, err := os.ReadFile(p)
+		return string(b), err == nil
+	}
+	if vSymbolic() {
+		vFSInit()
+		root = "/proj"
+		vFSDir(root)
+		vFSDir(root + "/api")
+		vFSDir(root + "/api/examples")
+		vFSFile(root+"/api/"+base, string(specText))
+		vFSFile(root+"/api/NOTES.md", notes)
+		vFSFile(root+"/api/examples/pet.json", example)
+		vStubReturn("github.com/go-openapi/loads.Spec", vDocument(sw), nil)
+		vStubReturn("github.com/go-openapi/analysis.Flatten", nil)
+		vStubReturn("github.com/go-openapi/swag.LoadFromFileOrHTTP", []byte("x"), nil)
+		vStubReturn("github.com/go-swagger/go-swagger/generator.BytesToYAMLv2Doc", nil, nil)
+		vStubReturn("gopkg.in/yaml.v2.Marshal", []byte("amended copy"), nil)
+	} else {
+		dir, err := os.MkdirTemp("", "verifc11")
+		if err != nil {
+			panic(err)
+		}
+		defer os.RemoveAll(dir)
+		root = dir
+		_ = os.MkdirAll(filepath.Join(root, "api", "examples"), 0o755)
+		_ = os.WriteFile(filepath.Join(root, "api", base), specText, 0o600)
+		_ = os.WriteFile(filepath.Join(root, "api", "NOTES.md"), []byte(notes), 0o600)
+		_ = os.WriteFile(filepath.Join(root, "api", "examples", "pet.json"), []byte(example), 0o600)
+	}
+	opts := vGenOpts()
+	opts.ValidateSpec = false
+	opts.FlattenOpts = &analysis.FlattenOpts{Minimal: true}
+	opts.PropertiesSpecOrder = keepOrder
+	opts.Spec = root + "/api/" + base
+	doc, _, err := opts.analyzeSpec()
+	vCover("analysed")
+	vAssert(err == nil && doc != nil, "a valid spec cannot be loaded and analysed")
+	got, ok := read(root + "/api/" + base)
+	vAssert(ok && got == string(specText), "the user's spec file is gone or changed after the spec was analysed")
+	got, ok = read(root + "/api/NOTES.md")
+	vAssert(ok && got == notes, "a file next to the spec is gone or changed after the spec was analysed")
+	got, ok = read(root + "/api/examples/pet.json")
+	vAssert(ok && got == example, "a file below the spec's directory is gone or changed after the spec was analysed")
+}
+
+func init() { vRegister("VerifC11SupportKeepsConfigure", VerifC11SupportKeepsConfigure) }
+
+// C11 (the configure file is the user's): GenerateSupport on a target that already holds an edited
+// restapi/configure_app.go - with or without --implementation-package, for server and client
+// runs - leaves that file where it is with its content, unless --regenerate-configureapi asks
+// for a new one. Symbolically the template sections are empty (nothing is rendered), so what is
+// seen is what GenerateSupport does to the target by itself; natively the real rendering runs.
+func VerifC11SupportKeepsConfigure() {
+	withImpl := vBool2("implementationPackage")
+	regenerate := vBool2("regenerateConfigureAPI")
+	userText := "// edited by the user\npackage restapi\n\nfunc mine() {}\n"
+	sw := vBaseSpec()
+	op := &spec.Operation{}
+	op.ID = "getIt"
+	op.Responses = vOKResponses()
+	vAddOp(sw, "GET", "/x", op)
+	root := "/work"
+	if vSymbolic() {
+		vFSInit()
+		vFSDir(root)
+		vFSDir(root + "/restapi")
+		vFSFile(root+"/restapi/configure_app.go", userText)
+	} else {
+		dir, err := os.MkdirTemp("", "verifc11s")
+		if err != nil {
+			panic(err)
+		}
+		defer os.RemoveAll(dir)
+		root = dir
+		_ = os.WriteFile(filepath.Join(root, "go.mod"), []byte("module verifgen\n\ngo 1.23\n"), 0o600)
+		_ = os.MkdirAll(filepath.Join(root, "restapi"), 0o755)
+		_ = os.WriteFile(filepath.Join(root, "restapi", "configure_app.go"), []byte(userText), 0o600)
+	}
+	ag := vAppGeneratorAt(sw, root)
+	if ag == nil {
+		return
+	}
+	if withImpl {
+		ag.GenOpts.ImplementationPackage = "verifgen/impl"
+	}
+	ag.GenOpts.RegenerateConfigureAPI = regenerate
+	err := ag.GenerateSupport(nil)
+	vCover("supported")
+	vAssert(err == nil, "GenerateSupport fails on a target that holds a configure file")
+	var got string
+	var ok bool
+	if vSymbolic() {
+		got, ok = vFSRead(root + "/restapi/configure_app.go")
+	} else {
+		b, rerr := os.ReadFile(filepath.Join(root, "restapi", "configure_app.go"))
+		got, ok = string(b), rerr == nil
+	}
+	vAssert(ok, "the user's configure file is gone after generating the support files")
+	if !regenerate {
+		vAssert(ok && got == userText, "the user's configure file was changed although --regenerate-configureapi was not given")
 	}
 }
